@@ -8,6 +8,8 @@ executable specification (specs/label_detectors.py) after every update.
 
 S (real arithmetic, unbounded history): one step from an arbitrary state.
 """
+import math
+
 import numpy as np
 
 from symx.core import Sym, SymBool
@@ -29,7 +31,7 @@ ENCODED = [
 BOUNDS = {
     "quick": "B: every outcome sequence of length N<=8 (DDM/EDDM n_threshold in {1,2,3}; STEPD window in {1,2}), labels arbitrary "
              "integers, thresholds universally quantified reals; S: one step from an arbitrary state (DDM, EDDM; symbolic "
-             "unbounded n_threshold); STEPD by B only",
+             "unbounded n_threshold), each step re-establishing the equality of all running statistics with the specification; STEPD by B only",
     "thorough": "B: N<=10, n_threshold in {1..4}, STEPD window in {1,2,3}; S as quick",
 }
 OUTSIDE = ("sequences longer than N (covered only by the S steps, which use exact real arithmetic instead of IEEE doubles); "
@@ -54,6 +56,31 @@ def _recs_equal(ctx, impl, spec):
     return ok
 
 
+def _feq(ctx, a, b):
+    """equality of a statistic of the implementation with the specification's; infinities (initial minima) compare by value"""
+    inf_a = isinstance(a, float) and math.isinf(a)
+    inf_b = isinstance(b, float) and math.isinf(b)
+    if inf_a or inf_b:
+        return inf_a and inf_b and a == b
+    return ctx.eq(a, b)
+
+
+def _same_statistics(ctx, d, spec):
+    """the representation relation of the inductive step: after the update the implementation's running statistics are
+    again those of the specification (otherwise one-step agreement of the *outputs* would not carry over to histories)"""
+    name = type(d).__name__
+    if name == "DDM":
+        return land(_feq(ctx, d._error_rate, spec.p), _feq(ctx, d._error_std, spec.s),
+                    _feq(ctx, d._error_rate_min, spec.p_min), _feq(ctx, d._error_std_min, spec.s_min))
+    if name == "EDDM":
+        return land(_feq(ctx, d._n_errors, spec.n_err), _feq(ctx, d._index_error_curr, spec.last_err),
+                    _feq(ctx, d._dist_mean, spec.mean), _feq(ctx, d._dist_std, spec.dev),
+                    _feq(ctx, d._max_numerator, spec.max_level))
+    win = list(d._window)
+    return land(len(win) == len(spec.recent), *[_feq(ctx, a, b) for a, b in zip(win, spec.recent)],
+                _feq(ctx, d._r, spec.older_correct), _feq(ctx, d._s, sum(spec.recent)))
+
+
 def _compare(ctx, d, spec, dc, wc, prev_state):
     post = d.drift_state
     if spec.quiet:
@@ -62,6 +89,9 @@ def _compare(ctx, d, spec, dc, wc, prev_state):
         ctx.prove(iff(state_is(post, "drift"), dc), "drift-iff-spec")
         ctx.prove(iff(state_is(post, "warning"), land(lnot(dc), wc)), "warning-iff-spec")
     spec.commit(post)
+    if state_is(post, "drift") is not True:
+        # (after an alarm the statistics are dead: both sides restart on the next sample)
+        ctx.prove(_same_statistics(ctx, d, spec), "running-statistics-equal-spec")
     ctx.witness(f"state-{post}")
 
 
